@@ -44,13 +44,16 @@ class C07(Engine):
     name = "read-fault-sim+conservation-monitor"
     level = "fault_enumeration"
     expected_kinds = {"fault_free", "garbage_nl_kept", "garbage_nl_lost", "lost_final_newline", "multi_file_garbage", "stray_eol", "lexical_garbage"}
-    rule_text = ("Fault-free: every workload file at API level with the conservation monitor (I1 for all, I2/I3 for files the tool "
-                 "itself finds clean, statement count for generated files). Fault-injecting: for every workload program and EVERY "
-                 "statement boundary, seeded fragments of the unrecognisable family, newline kept or lost, plus the lost final "
-                 "newline, through the real main(); I4 is evaluated when the monitor saw an iteration that matched no primary "
-                 "(measured, not assumed). Non-trivial = at least one unmatched iteration occurred (I4) or the file was clean (I2/I3); "
-                 "distinct = distinct (kind of statement before the boundary, fragment, newline kept) triples plus distinct "
-                 "matched-rule bigrams seen by I1-I3.")
+    rule_text = ("Fault-free: every workload file at API level with the conservation monitor (I1 for all; I2/I3 for the conforming "
+                 "family - generated programs whatever their verdict, hand-written specials and repository samples the tool finds clean; "
+                 "statement count and depth-by-construction for generated programs, statement count for count-preserving violations and "
+                 "for a stray sequence at the end of EVERY preprocessor line). Fault-injecting, through the real main(): for every base "
+                 "program and EVERY statement boundary, seeded fragments of the unrecognisable family, newline kept or lost, a third of "
+                 "them under -f json; lexical garbage (ASCII junk and raw undecodable bytes) at every token-start boundary; the lost "
+                 "final newline; multi-file runs with garbage in some files (I5). I4 is evaluated when the monitor saw an iteration that "
+                 "matched no primary (measured, not assumed). Non-trivial = an unmatched iteration occurred (I4) or the file was in the "
+                 "conforming family (I2/I3); distinct = distinct (kind of statement before the boundary, fragment, newline kept) triples, "
+                 "multi-file shapes and matched-rule bigrams seen by I1-I3.")
     assumptions = ["'conforming' for I2/I3 means: the tool's own R-alone outcome has no diagnostic (measured)",
                    "a jump that claims more tokens than remain (eol() stepping past the end) is not flagged: nothing is skipped",
                    "I4 is asserted for default options only (under -d unrecognised tokens are tolerated by design)"]
